@@ -276,11 +276,15 @@ def generate_name(
     def taken(candidate: str) -> bool:
         # A name is taken by a type generated so far, or by a type the model
         # declares (it may not be generated yet, e.g. the owner of a literal).
-        return bool(types.get_by_name(candidate)) or (
-            spec is not None
-            and any(
-                t.name == candidate
-                for t in [*spec.structures, *spec.enumerations, *spec.typeAliases]
+        return (
+            bool(types.get_by_name(candidate))
+            or types.is_reserved(candidate)
+            or (
+                spec is not None
+                and any(
+                    t.name == candidate
+                    for t in [*spec.structures, *spec.enumerations, *spec.typeAliases]
+                )
             )
         )
 
@@ -336,6 +340,7 @@ def generate_literal_type(
         name_context = f"{name_context}_{get_context_from_literal(literal)}"
 
     literal.name = generate_name(name_context, types, spec)
+    types.reserve_name(literal.name)
 
     usings = ["DataContract"]
     inner = []
